@@ -48,6 +48,21 @@ and print_jumbo b a = match a with SLet _ -> (Buffer.add_string b "("; print b a
 
 let to_string (s : src) : string = let b = Buffer.create 256 in print b s; Buffer.contents b
 
+(* a type written as a computation that the checker must normalise (type-level conditionals on comparisons
+   with equal / boundary operands, an applied type-level identity) *)
+let computed_annotation (r : Rng.t) (a : src) : src =
+  let n = Rng.pick r [ "0"; "1"; "2"; "7"; "18446744073709551617" ] in
+  let other = if a = SBool then SInt else SBool in
+  match Rng.int r 8 with
+  | 0 -> SIf (SBin (">=", SLit n, SLit n), a, other)
+  | 1 -> SIf (SBin ("<=", SLit n, SLit n), a, other)
+  | 2 -> SIf (SBin ("==", SLit n, SLit n), a, other)
+  | 3 -> SIf (SBin (">", SLit n, SLit n), other, a)
+  | 4 -> SIf (SBin ("<", SLit n, SLit n), other, a)
+  | 5 -> SIf (SBin ("<", SLit n, SBin ("+", SLit n, SLit "1")), a, other)
+  | 6 -> SApp (SLam ("tt", false, Some SType, SVar "tt"), a)
+  | _ -> SIf (SBin (">=", SBin ("-", SLit n, SLit n), SLit "0"), a, other)
+
 let rec src_of_ty (t : ty) : src =
   match t with
   | Int -> SInt | Bool -> SBool | Type -> SType | TV x -> SVar x
@@ -236,13 +251,22 @@ and gen_group r m e t size =
        let x = fresh_name e "v" in
        let dt = Rng.pick r [ Int; Int; Bool; Arrow (Int, Int); Arrow (Int, Bool) ] in
        let d = gen r m !e' dt per in
-       let ann = if Rng.int r 10 < m.annot_num then Some (src_of_ty dt)
+       (* annotate through a local type alias of the right target when there is one: the type of the group's
+          body then mentions a definition of the group *)
+       let via_alias = List.filter (fun (_, t') -> t' = dt) !e'.aliases in
+       let ann = if Rng.int r 10 < m.annot_num then
+           Some (if via_alias <> [] && Rng.chance r 1 2 then SVar (fst (Rng.pick r via_alias))
+                 else if Rng.chance r 1 6 then computed_annotation r (src_of_ty dt) else src_of_ty dt)
          else if m.holes && Rng.chance r 1 4 then Some SHole else None in
        defs := (x, ann, d) :: !defs;
        e' := { !e' with vars = (x, dt) :: !e'.vars });
     incr i
   done;
-  SLet (List.rev !defs, gen r m !e' t per)
+  (* sometimes the body is just one of the group's variables of the right type *)
+  let body = (match List.filter (fun (x, t') -> t' = t && List.exists (fun (y, _, _) -> y = x) !defs) !e'.vars with
+      | (_ :: _) as vs when Rng.chance r 1 3 -> SVar (fst (Rng.pick r vs))
+      | _ -> gen r m !e' t per) in
+  SLet (List.rev !defs, body)
 
 let empty_env () = { vars = []; fresh = ref 0; aliases = [] }
 
@@ -512,3 +536,25 @@ let apply_rewrite (r : Rng.t) (e : env) (top : ty) (s : src) (w : rewrite) : src
     (rewrite_at s (pos ()) (fun x -> match x with
          | SBin _ | SLit _ | SNeg _ | STrue | SFalse -> SLet ([ (n, None, x) ], SVar n)
          | _ -> x), None)
+
+(* C01: make one group misordered - a non-value definition now precedes a definition it uses.
+   If the later definition is a value the implementation accepts the program (recorded finding D7);
+   if it is not, the definition-order check must reject it. *)
+let is_value_src (s : src) : bool =
+  match s with SLam _ | SLit _ | STrue | SFalse | SType | SInt | SBool | SPi _ | SArrow _ -> true | _ -> false
+
+let rec misorder (r : Rng.t) (s : src) : src =
+  match s with
+  | SLet (ds, b) ->
+    let rec swap = function
+      | ((x1, _, _) as e1) :: ((_, _, d2) as e2) :: rest
+        when not (is_value_src d2) && List.mem x1 (free_names d2) && Rng.chance r 2 3 -> e2 :: e1 :: rest
+      | e :: rest -> e :: swap rest
+      | [] -> [] in
+    SLet (swap (List.map (fun (x, an, d) -> (x, an, misorder r d)) ds), misorder r b)
+  | SLam (x, im, an, b) -> SLam (x, im, an, misorder r b)
+  | SApp (a, b) -> SApp (misorder r a, misorder r b)
+  | SBin (o, a, b) -> SBin (o, misorder r a, misorder r b)
+  | SNeg a -> SNeg (misorder r a)
+  | SIf (c, a, b) -> SIf (misorder r c, misorder r a, misorder r b)
+  | _ -> s
